@@ -23,9 +23,10 @@ Definition record := (Z * payload)%type.      (* field number, payload *)
 Definition wt_of (p : payload) : Z :=
   match p with Varint _ => 0 | Fixed64 _ => 1 | Len _ => 2 | Group _ => 3 | Fixed32 _ => 5 end.
 
-(* A tag is the varint of number*8 + wire type, number in 1 .. 2^29-1; parsers (upb, the
-   C++ parser) read a tag as a 32-bit varint of at most [tag_max] bytes.  A value / length
-   varint has at most 10 bytes and denotes a number below 2^64. *)
+(* A tag is the varint of number*8 + wire type, number in 1 .. 2^29-1.  Tags and lengths are
+   32-bit quantities: parsers (upb, the C++ parser) read them as varints of at most [tag_max]
+   bytes and reject longer ones.  A value varint has at most 10 bytes and denotes a number
+   below 2^64. *)
 Definition tag_max : nat := 5.
 Definition TagRep (num wt : Z) (bs : list byte) : Prop :=
   VarintRep (num * 8 + wt) bs /\ (length bs <= tag_max)%nat /\ 1 <= num < 2 ^ 29.
@@ -34,7 +35,8 @@ Definition TagRep (num wt : Z) (bs : list byte) : Prop :=
 Inductive rec_ok : list byte -> record -> Prop :=
 | ok_varint num t v n : TagRep num 0 t -> VarintRep n v -> n < 2 ^ 64 -> rec_ok (t ++ v) (num, Varint n)
 | ok_fixed64 num t b : TagRep num 1 t -> length b = 8%nat -> rec_ok (t ++ b) (num, Fixed64 b)
-| ok_len num t l b : TagRep num 2 t -> VarintRep (Zlength b) l -> rec_ok (t ++ l ++ b) (num, Len b)
+| ok_len num t l b : TagRep num 2 t -> VarintRep (Zlength b) l -> (length l <= tag_max)%nat ->
+                     rec_ok (t ++ l ++ b) (num, Len b)
 | ok_fixed32 num t b : TagRep num 5 t -> length b = 4%nat -> rec_ok (t ++ b) (num, Fixed32 b)
 | ok_group num t body rs e : TagRep num 3 t -> wire_ok body rs -> TagRep num 4 e ->
                              rec_ok (t ++ body ++ e) (num, Group rs)
@@ -56,54 +58,60 @@ Fixpoint read_varint (k : nat) (bs : list byte) : option (Z * list byte) :=
 
 Definition take (n : nat) (bs : list byte) : option (list byte * list byte) :=
   if Nat.leb n (length bs) then Some (firstn n bs, skipn n bs) else None.
+Definition takez (n : Z) (bs : list byte) : option (list byte * list byte) :=
+  if n <=? Zlength bs then take (Z.to_nat n) bs else None.
 
-(* [grp] = Some g while inside group g: the records end at the matching end tag; the fuel
-   counts records, [parse_wire] supplies more than there can be *)
+(* one record (tag, payload) and whatever [rec] reads after it.  [grp] = Some g while inside
+   group g: the records end at the matching end tag. *)
+Definition parse_one (rec : option Z -> list byte -> option (list record * list byte))
+           (grp : option Z) (bs : list byte) : option (list record * list byte) :=
+  match read_varint tag_max bs with
+  | None => None
+  | Some (tag, r1) =>
+      let num := tag / 8 in
+      let wt := tag mod 8 in
+      let continue (p : payload) (rest : list byte) :=
+        match rec grp rest with
+        | Some (rs, rest') => Some ((num, p) :: rs, rest')
+        | None => None
+        end in
+      if (num <? 1) || (2 ^ 29 <=? num) then None
+      else if wt =? 0 then
+        match read_varint 10 r1 with
+        | Some (v, r2) => if v <? 2 ^ 64 then continue (Varint v) r2 else None
+        | None => None
+        end
+      else if wt =? 1 then
+        match take 8 r1 with Some (b, r2) => continue (Fixed64 b) r2 | None => None end
+      else if wt =? 2 then
+        match read_varint tag_max r1 with
+        | Some (n, r2) =>
+            match takez n r2 with Some (b, r3) => continue (Len b) r3 | None => None end
+        | None => None
+        end
+      else if wt =? 5 then
+        match take 4 r1 with Some (b, r2) => continue (Fixed32 b) r2 | None => None end
+      else if wt =? 3 then
+        match rec (Some num) r1 with
+        | Some (inner, r2) => continue (Group inner) r2
+        | None => None
+        end
+      else if wt =? 4 then
+        match grp with
+        | Some g => if g =? num then Some ([], r1) else None
+        | None => None
+        end
+      else None
+  end.
+
+(* the fuel counts records; [parse_wire] supplies more than there can be *)
 Fixpoint parse_records (fuel : nat) (grp : option Z) (bs : list byte) : option (list record * list byte) :=
   match fuel with
   | O => None
   | S fuel' =>
       match bs with
       | [] => match grp with None => Some ([], []) | Some _ => None end
-      | _ =>
-          match read_varint tag_max bs with
-          | None => None
-          | Some (tag, r1) =>
-              let num := tag / 8 in
-              let wt := tag mod 8 in
-              let continue (p : payload) (rest : list byte) :=
-                match parse_records fuel' grp rest with
-                | Some (rs, rest') => Some ((num, p) :: rs, rest')
-                | None => None
-                end in
-              if (num <? 1) || (2 ^ 29 <=? num) then None
-              else if wt =? 0 then
-                match read_varint 10 r1 with
-                | Some (v, r2) => if v <? 2 ^ 64 then continue (Varint v) r2 else None
-                | None => None
-                end
-              else if wt =? 1 then
-                match take 8 r1 with Some (b, r2) => continue (Fixed64 b) r2 | None => None end
-              else if wt =? 2 then
-                match read_varint 10 r1 with
-                | Some (n, r2) =>
-                    match take (Z.to_nat n) r2 with Some (b, r3) => continue (Len b) r3 | None => None end
-                | None => None
-                end
-              else if wt =? 5 then
-                match take 4 r1 with Some (b, r2) => continue (Fixed32 b) r2 | None => None end
-              else if wt =? 3 then
-                match parse_records fuel' (Some num) r1 with
-                | Some (inner, r2) => continue (Group inner) r2
-                | None => None
-                end
-              else if wt =? 4 then
-                match grp with
-                | Some g => if g =? num then Some ([], r1) else None
-                | None => None
-                end
-              else None
-          end
+      | _ => parse_one (parse_records fuel') grp bs
       end
   end.
 
@@ -410,6 +418,21 @@ Section Interp.
     end.
 End Interp.
 
+(* every record that belongs to a field must be valid by itself, whether or not a later record
+   overrides it (the reference rejects the message otherwise) *)
+Definition is_some {A} (o : option A) : bool := match o with Some _ => true | None => false end.
+Definition payload_valid (nested : nat -> list byte -> option aval) (f : fdesc) (p : payload) : bool :=
+  match card_of f with
+  | MapOf => is_some (nested (fentry f) (len_bytes p))
+  | Repeated => is_some (elems_of nested f p)
+  | _ => is_some (elem_of nested f p)
+  end.
+Definition record_valid (nested : nat -> list byte -> option aval) (sc : schema) (fs : list fdesc) (r : record) : bool :=
+  match find_field fs (fst r) with
+  | Some (_, f) => if accepts sc f (snd r) then payload_valid nested f (snd r) else true
+  | None => true
+  end.
+
 (* [sem n sc c rs]: the message of class c denoted by the records rs; None when the reference
    rejects the message (invalid UTF-8 in a string field, malformed packed or nested payload).
    n bounds the nesting depth; S (length bs) is always enough for the records of bs. *)
@@ -418,11 +441,13 @@ Fixpoint sem (n : nat) (sc : schema) (c : nat) (rs : list record) : option aval 
   | O => None
   | S n' =>
       let fs := cfields (get_class sc c) in
-      let '(st, unk) := gather sc fs rs in
       let nested (c' : nat) (b : list byte) : option aval :=
         let? rs' := parse_wire b in sem n' sc c' rs' in
-      let? fields := omap_all (fun '(f, ps) => interp_field nested sc f ps) (combine fs st) in
-      Some (AMsg fields unk)
+      if forallb (record_valid nested sc fs) rs then
+        let '(st, unk) := gather sc fs rs in
+        let? fields := omap_all (fun '(f, ps) => interp_field nested sc f ps) (combine fs st) in
+        Some (AMsg fields unk)
+      else None
   end.
 
 Definition sem_bytes (sc : schema) (c : nat) (bs : list byte) : option aval :=
